@@ -16,6 +16,7 @@ mod util;
 mod c01;
 mod c02;
 mod c03;
+mod c05;
 mod c06;
 mod c16;
 mod c17;
@@ -77,6 +78,7 @@ fn main() {
         "c01" => c01::run(&args, &mut report),
         "c02" => c02::run(&args, &mut report),
         "c03" => c03::run(&args, &mut report),
+        "c05" => c05::run(&args, &mut report),
         "c06" => c06::run(&args, &mut report),
         "c16" => c16::run(&args, &mut report),
         "c17" => c17::run(&args, &mut report),
